@@ -103,6 +103,7 @@ CONSTS = {
                   depth=2, nrand=300),
     "thorough": dict(lat="Dirs <- LDirs\nThicks <- LThicks\nMats <- LMats\nOffsets <- LOffsets\nMaxPlies = 2\nMaxLen = 4\n",
                      beh="Dirs <- QDirs\nThicks <- QThicks\nMats <- BMats\nOffsets <- QOffsets\nMaxPlies = 2\nMaxLen = 8\n",
+                     graph="Dirs <- QDirs\nThicks <- BThicks\nMats <- BMats\nOffsets <- BOffsets\nMaxPlies = 2\nMaxLen = 4\n",
                      depth=5, nrand=6000, simulate="num=2500"),
 }
 INVS = "INVARIANT SymmetricABD\nINVARIANT PositiveDefinite\nINVARIANT OffsetLaw\n"
@@ -115,7 +116,7 @@ def run(tier, seed, build):
     c = CONSTS[tier]
     # 1. laws on the state graph (invariants + action properties), by TLC
     g = run_tlc("c01-graph", "MC_Laminate", "SPECIFICATION GraphSpec\nCONSTANTS\n%sDepth = 0\n%s%sCHECK_DEADLOCK FALSE\n"
-                % (c["beh"], INVS, PROPS), workers=16, timeout=3000)
+                % (c.get("graph", c["beh"]), INVS, PROPS), workers=16, timeout=3000)
     rep.add_tlc("MC_Laminate/Spec (laws)", g)
     if not g.ok:
         rep.machinery("TLC on Laminate state graph failed: " + g.errors())
